@@ -15,7 +15,14 @@ class _Observable(_Observable, _STIXBase21):
         super(_Observable, self).__init__(**kwargs)
         if kwargs.get('id') is None:
             # Specific to 2.1+ observables: generate a deterministic ID
-            id_ = self._generate_id()
+            try:
+                id_ = self._generate_id()
+            except RecursionError:
+                # (this runs outside the wrapped property cleaning)
+                raise ValueError(
+                    "the ID contributing properties are nested too deeply "
+                    "to compute an ID",
+                )
 
             # Spec says fall back to UUIDv4 if no contributing properties were
             # given.  That's what already happened (the following is actually
